@@ -38,9 +38,9 @@ out = ["# Seeded property-breaking changes", "",
 for r in rows:
     out.append("| %s | %s | %s | %s | %s | %s |" % r)
 def rnd(sid):
-    return 2 if "-r2-" in sid else (3 if "-r3-" in sid else 1)
+    return 2 if "-r2-" in sid else (3 if "-r3-" in sid else (4 if "-r4-" in sid else 1))
 out += [""]
-for k in (1, 2, 3):
+for k in (1, 2, 3, 4):
     rr = [r for r in rows if rnd(r[0]) == k]
     if not rr:
         continue
